@@ -253,7 +253,30 @@ def e07_break_outside_chunk(tree, pts, ins, pick):
     return p.placement + (":used-in-chunk" if p.decl["kind"] == "struct" else "")
 
 
+def _switch_then_follower(p, pick, case_body, follower):
+    """Constructs: <field zz/> <switch field=zz> <case 1>case_body</case> <case 2/> [<case default/>] </switch>
+    follower - at a clean point of a body. The offending state is reached only through a NON-LAST case."""
+    names = _all_names(p)
+    sw = _fresh(names, "zsw")
+    cases = [{"value": "1", "body": case_body}, {"value": "2", "body": []}]
+    if pick([True, False]):
+        cases.append({"default": True, "body": []})
+    if pick([True, False]):
+        cases.insert(0, {"value": "7", "body": []})
+    new = [{"tag": "field", "name": sw, "type": pick(["char", "short"])},
+           {"tag": "switch", "field": sw, "cases": cases}, follower]
+    p.lst[p.idx:p.idx] = new
+
+
 def e08_required_after_optional(tree, pts, ins, pick):
+    if pick([0, 1, 2]) == 0:
+        c0 = [p for p in _clean(pts) if not p.opt and p.idx == len(p.lst)]
+        if c0:
+            p = pick(c0)
+            names = _all_names(p)
+            follower = {"tag": "field", "name": _fresh(names, "zreq"), "type": "char"}
+            _switch_then_follower(p, pick, [{"tag": "field", "name": "zo", "type": "char", "optional": True}], follower)
+            return "via_nonlast_case:" + p.placement
     c = [p for p in _clean(pts) if p.opt]
     if not c:
         return None
@@ -272,6 +295,13 @@ def e08_required_after_optional(tree, pts, ins, pick):
 
 
 def e09_after_dummy(tree, pts, ins, pick):
+    if pick([0, 1, 2]) == 0:
+        c0 = [p for p in _clean(pts) if not p.opt and p.idx == len(p.lst)]
+        if c0:
+            p = pick(c0)
+            follower = {"tag": "field", "name": _fresh(_all_names(p), "zaft"), "type": "char"}
+            _switch_then_follower(p, pick, [{"tag": "dummy", "type": "char", "value": "0"}], follower)
+            return "via_nonlast_case:" + p.placement
     c = [p for p in pts if p.dummy]
     if not c:
         # create the situation: append a dummy and a follower at the end of a body
